@@ -13,7 +13,8 @@
 From Coq Require Import String ZArith QArith Bool Arith List Permutation.
 From GT Require Import Base.UTree Spec.Obs Model.Reroot Spec.Unrooted Model.Newick Spec.NewickSpec
      Proofs.RerootBase Proofs.PruneBase Model.LocalEdit Proofs.LocalEditBase Proofs.LocalEdit
-     Proofs.LocalEditInsert Proofs.LocalEditInsertAll Proofs.LocalEditSingle Proofs.LocalEditClone.
+     Proofs.LocalEditInsert Proofs.LocalEditInsertAll Proofs.LocalEditSingle Proofs.LocalEditClone
+     Judge.C15 Proofs.LocalEditOracle Model.HeapClone Proofs.HeapClone.
 Import ListNotations.
 Local Close Scope Q_scope.
 
@@ -204,3 +205,97 @@ Theorem C15_merged_branch_length :
   forall pe e2, (len0 (rs_edge pe e2) == len0 pe + len0 e2)%Q.
 Proof. exact len0_rs_edge. Qed.
 Print Assumptions C15_merged_branch_length.
+
+(** * the same results in the form the run-time oracle uses *)
+(** [same_dists t g names] (Judge/C15.v): every path length [dist_opt len0] between two of the
+    given tips is defined in [t] and equal in [g]. *)
+Theorem C15_oracle_form :
+  forall t g k names,
+    NoDup (leaves t) -> NoDup (leaves g) ->
+    dists_equiv (fP k (pairdists len0 g)) (fP k (pairdists len0 t)) ->
+    (forall x, In x names -> k x = true /\ In x (leaves t) /\ In x (leaves g)) ->
+    same_dists t g names = true.
+Proof. exact same_dists_intro. Qed.
+Print Assumptions C15_oracle_form.
+
+Theorem C15_merge_oracle :
+  forall t1 t2 t' i1 i2 names,
+    merge t1 t2 i1 i2 = Ok t' -> NoDup (leaves t1) -> NoDup (leaves t2) ->
+    (forall x, In x (leaves t1) -> In x (leaves t2) -> False) ->
+    (forall x, In x names -> In x (leaves t1)) ->
+    same_dists t1 t' names = true.
+Proof. exact merge_same_dists. Qed.
+Print Assumptions C15_merge_oracle.
+
+Theorem C15_graft_oracle :
+  forall t g t' idx tip names,
+    graft t idx tip g = Ok t' -> wf t = true ->
+    NoDup (leaves t) -> NoDup (leaves g) ->
+    (forall x, In x (leaves t) -> In x (leaves g) -> False) ->
+    (forall x, In x names -> In x (leaves t) /\ x <> tip) ->
+    same_dists t t' names = true.
+Proof. exact graft_same_dists. Qed.
+Print Assumptions C15_graft_oracle.
+
+Theorem C15_insert_oracle :
+  forall t t' idx groups names,
+    wf t = true -> (forall x, In x (leaves t) -> In x idx) -> ~ In ""%string idx ->
+    Forall (fun g => ~ In ""%string g) groups ->
+    insert_identical t idx groups = Ok t' ->
+    NoDup (leaves t) ->
+    (forall x, In x names -> In x (leaves t)) ->
+    same_dists t t' names = true.
+Proof. exact insert_same_dists. Qed.
+Print Assumptions C15_insert_oracle.
+
+Theorem C15_remove_single_oracle :
+  forall t names,
+    NoDup (leaves t) -> (forall x, In x names -> In x (leaves t)) ->
+    same_dists t (remove_single t) names = true.
+Proof. exact remove_single_same_dists. Qed.
+Print Assumptions C15_remove_single_oracle.
+
+(** * copies are independent: Clone on a store with ids (Model/HeapClone.v) *)
+(** [repr P h nid par t]: in the store [h] the node [nid] carries the tree [t] and every node,
+    branch and comment cell used has its id in the region [P].  [repr] reads the store only
+    inside the region: *)
+Theorem C15_heap_frame :
+  forall P h h2 t nid par, agree P h h2 -> repr P h nid par t -> repr P h2 nid par t.
+Proof. exact repr_frame. Qed.
+Print Assumptions C15_heap_frame.
+
+(** Clone of a store region below [k] that carries [t] (fresh ids start at [hnext h] >= k):
+    the source region is untouched and still carries [t]; the copy lives in the fresh region
+    and carries the abstract clone [clone t] of Model/LocalEdit.v *)
+Theorem C15_heap_clone :
+  forall t fuel h root k,
+    repr (below k) h root None t -> k <= hnext h -> usize t <= fuel ->
+    exists m', hnext (fst (clone_h fuel h root)) = m' /\ hnext h <= snd (clone_h fuel h root) < m' /\
+      agree (below k) h (fst (clone_h fuel h root)) /\
+      repr (below k) (fst (clone_h fuel h root)) root None t /\
+      repr (between (hnext h) m') (fst (clone_h fuel h root)) (snd (clone_h fuel h root)) None (clone t).
+Proof. exact clone_h_ok. Qed.
+Print Assumptions C15_heap_clone.
+
+Theorem C15_heap_regions_disjoint :
+  forall k m m' i, k <= m -> below k i -> between m m' i -> False.
+Proof. exact regions_disjoint. Qed.
+Print Assumptions C15_heap_regions_disjoint.
+
+(** hence: after Clone, any later store that differs from the result only outside the source
+    region (every write to a node, branch or comment cell of the copy is such a change) still
+    carries [t] at the source; and symmetrically for the copy *)
+Theorem C15_heap_independent :
+  forall t fuel h root k,
+    repr (below k) h root None t -> k <= hnext h -> usize t <= fuel ->
+    let h' := fst (clone_h fuel h root) in
+    let r' := snd (clone_h fuel h root) in
+    (forall h2, agree (below k) h' h2 -> repr (below k) h2 root None t) /\
+    (forall h2, agree (between (hnext h) (hnext h')) h' h2 ->
+                repr (between (hnext h) (hnext h')) h2 r' None (clone t)).
+Proof. exact clone_independent. Qed.
+Print Assumptions C15_heap_independent.
+
+Example C15_heap_example : repr (below 15) ex_heap 0 None ex_tree.
+Proof. exact ex_heap_repr. Qed.
+Print Assumptions C15_heap_example.
